@@ -11,6 +11,7 @@
 #include <set>
 #include <time.h>
 #include <unistd.h>
+#include <vector>
 
 static double now_s() { struct timespec ts; clock_gettime(CLOCK_MONOTONIC, &ts); return ts.tv_sec + ts.tv_nsec * 1e-9; }
 
@@ -122,20 +123,22 @@ static int cmd_worker(int argc, char **argv) {
 	gen::init_context(gc);
 	// C13: the first calls of this process (the warm-up history) are made under seeded environments as well
 	const uint64_t warmup_seed = prop == "C13" ? (rt::mix64(seed ^ 0xC13, from) | 1) : 0;
-	const bool cold = arg_flag(argc, argv, "--cold") && mode != "enum"; // no warm-up: the first history of this process runs cold (see ops::Plan::cold)
+	const bool enum_cold = mode == "enum-cold"; // one enumeration item per process: this process runs exactly one plan, cold, and re-executes itself for the next
+	const bool cold = (arg_flag(argc, argv, "--cold") && mode != "enum") || enum_cold; // no warm-up: the first history of this process runs cold (see ops::Plan::cold)
+	if (enum_cold) gen::prime_request_counts_in_child(gc);
 	if (!cold) { // warm-up (not counted; see gen::warmup_plan)
 		exec::Options wopt; wopt.run_index = ~(uint64_t)0;
 		exec::Report wr = exec::execute(gen::warmup_plan(gc, warmup_seed), wopt);
 		printf("{\"type\":\"warmup\",\"ops\":%d,\"invalid\":%s,\"violations\":%zu}\n", wr.ops_executed, wr.invalid ? "true" : "false", wr.violations.size());
 		fflush(stdout);
 	}
-	if (mode == "enum") { uint64_t n = gen::enum_size(gc); if (to > n) to = n; printf("{\"type\":\"enum\",\"size\":%llu}\n", (unsigned long long)n); fflush(stdout); }
+	if (mode == "enum" || enum_cold) { uint64_t n = gen::enum_size(gc); if (to > n) to = n; printf("{\"type\":\"enum\",\"size\":%llu}\n", (unsigned long long)n); fflush(stdout); }
 	uint64_t done = 0;
 	for (uint64_t idx = from; idx < to; idx += step) {
 		if (budget > 0 && done > 0 && now_s() - t0 > budget) break; // every worker completes at least one run however slow the machine
 		uint64_t run_seed = rt::mix64(rt::mix_str(seed, prop.c_str()), idx);
 		double t1 = now_s();
-		gc.no_dry_run = cold && done == 0;
+		gc.no_dry_run = cold && done == 0 && !enum_cold;
 		ops::Plan plan = gen::generate(gc, run_seed, idx);
 		plan.warmup_seed = cold ? 0 : warmup_seed;
 		if (cold && done == 0) plan.cold = true;
@@ -156,6 +159,19 @@ static int cmd_worker(int argc, char **argv) {
 		printf("%s\n", line.c_str());
 		fflush(stdout);
 		++done;
+		if (enum_cold && idx + step < to) {
+			// next item in a fresh process image (same pid, same pipe): re-execute with --from advanced and the remaining budget
+			double left = budget > 0 ? budget - (now_s() - t0) : 0;
+			if (budget > 0 && left <= 0) break;
+			std::vector<std::string> args(argv, argv + argc);
+			char nb[32]; snprintf(nb, sizeof nb, "%llu", (unsigned long long)(idx + step));
+			char bb[32]; snprintf(bb, sizeof bb, "%.2f", left);
+			for (size_t i = 0; i + 1 < args.size(); ++i) { if (args[i] == "--from") args[i + 1] = nb; if (args[i] == "--budget-s") args[i + 1] = bb; }
+			std::vector<char *> av; for (auto &a : args) av.push_back((char *)a.c_str()); av.push_back(nullptr);
+			fflush(stdout);
+			execv("/proc/self/exe", av.data());
+			break;
+		}
 		if (rep.violations.size() >= 48) break; // a flood of violations (e.g. a race on every access): this worker has shown enough
 	}
 	uint64_t h, m, ci; model::memo_stats(h, m, ci);
